@@ -27,9 +27,21 @@ type lab struct {
 	silent  int
 	v6      bool
 	cleaned bool
+	pub     map[int]bool // links numbered from public (non-RFC1918 / non-ULA) blocks; default: every link private
+}
+
+// labArgs: a check that itself runs inside the private namespace pair (everything except C13) reaches the lab through
+// the initial mount and network namespaces (those of the outer test process), where `ip netns` keeps its name table.
+func labArgs(args []string) []string {
+	if outer := os.Getenv("VERIF_OUTER_PID"); os.Getenv("VERIF_NS_MAIN") != "" && outer != "" {
+		// the process that created the pair and waits for this one still lives in the initial namespaces
+		return append([]string{"nsenter", "-t", outer, "-m", "-n", "--"}, args...)
+	}
+	return args
 }
 
 func run(args ...string) (string, error) {
+	args = labArgs(args)
 	out, err := exec.Command(args[0], args[1:]...).CombinedOutput()
 	if err != nil {
 		return string(out), fmt.Errorf("%s: %v: %s", strings.Join(args, " "), err, strings.TrimSpace(string(out)))
@@ -37,19 +49,31 @@ func run(args ...string) (string, error) {
 	return string(out), nil
 }
 
+func (l *lab) net4(link int) string {
+	if l.pub[link] {
+		return fmt.Sprintf("198.18.%d.", link)
+	}
+	return fmt.Sprintf("10.13.%d.", link)
+}
+func (l *lab) net6(link int) string {
+	if l.pub[link] {
+		return fmt.Sprintf("2001:db8:13:%x::", link)
+	}
+	return fmt.Sprintf("fd13:%x::", link)
+}
 func (l *lab) addr4(link int, right bool) string {
 	h := 1
 	if right {
 		h = 2
 	}
-	return fmt.Sprintf("10.13.%d.%d", link, h)
+	return fmt.Sprintf("%s%d", l.net4(link), h)
 }
 func (l *lab) addr6(link int, right bool) string {
 	h := 1
 	if right {
 		h = 2
 	}
-	return fmt.Sprintf("fd13:%x::%d", link, h)
+	return fmt.Sprintf("%s%d", l.net6(link), h)
 }
 
 // routerAddr4 is the address router k (1-based) answers from: its interface towards the source.
@@ -61,8 +85,10 @@ func (l *lab) hopAddr(k int, v6 bool) string {
 }
 func (l *lab) dest(v6 bool) string { return l.hopAddr(l.n+1, v6) }
 
-func newLab(tag string, n int) (*lab, error) {
-	l := &lab{id: fmt.Sprintf("c13%d%s", os.Getpid()%100000, tag), n: n}
+func newLab(tag string, n int) (*lab, error) { return newLabPub(tag, n, nil) }
+
+func newLabPub(tag string, n int, pub map[int]bool) (*lab, error) {
+	l := &lab{id: fmt.Sprintf("c13%d%s", os.Getpid()%100000, tag), n: n, pub: pub}
 	for i := 0; i <= n+1; i++ {
 		l.ns = append(l.ns, fmt.Sprintf("%sn%d", l.id, i))
 	}
@@ -103,11 +129,11 @@ func newLab(tag string, n int) (*lab, error) {
 		for link := 1; link <= n+1; link++ {
 			switch {
 			case link > k+1:
-				run("ip", "-n", l.ns[k], "route", "add", fmt.Sprintf("10.13.%d.0/24", link), "via", l.addr4(k+1, true))
-				run("ip", "-n", l.ns[k], "-6", "route", "add", fmt.Sprintf("fd13:%x::/64", link), "via", l.addr6(k+1, true))
+				run("ip", "-n", l.ns[k], "route", "add", l.net4(link)+"0/24", "via", l.addr4(k+1, true))
+				run("ip", "-n", l.ns[k], "-6", "route", "add", l.net6(link)+"/64", "via", l.addr6(k+1, true))
 			case link < k:
-				run("ip", "-n", l.ns[k], "route", "add", fmt.Sprintf("10.13.%d.0/24", link), "via", l.addr4(k, false))
-				run("ip", "-n", l.ns[k], "-6", "route", "add", fmt.Sprintf("fd13:%x::/64", link), "via", l.addr6(k, false))
+				run("ip", "-n", l.ns[k], "route", "add", l.net4(link)+"0/24", "via", l.addr4(k, false))
+				run("ip", "-n", l.ns[k], "-6", "route", "add", l.net6(link)+"/64", "via", l.addr6(k, false))
 			}
 		}
 	}
@@ -126,7 +152,8 @@ func (l *lab) cleanup() {
 		}
 	}
 	for _, ns := range l.ns {
-		exec.Command("ip", "netns", "del", ns).Run()
+		a := labArgs([]string{"ip", "netns", "del", ns})
+		exec.Command(a[0], a[1:]...).Run()
 	}
 }
 
@@ -143,7 +170,8 @@ conns=[]
 while True:
     c,_=s.accept(); conns.append(c)
 `, port)
-	cmd := exec.Command("ip", "netns", "exec", l.ns[l.n+1], "python3", "-c", script)
+	la := labArgs([]string{"ip", "netns", "exec", l.ns[l.n+1], "python3", "-c", script})
+	cmd := exec.Command(la[0], la[1:]...)
 	stdout, _ := cmd.StdoutPipe()
 	if err := cmd.Start(); err != nil {
 		return err
@@ -186,7 +214,8 @@ func (l *lab) cliIn(k int, args ...string) c13Out {
 	bin := filepath.Join(os.Getenv("VERIF_BUILD_DIR"), "datadog-traceroute")
 	ctx, cancel := context.WithTimeout(context.Background(), 120*time.Second)
 	defer cancel()
-	cmd := exec.CommandContext(ctx, "ip", append([]string{"netns", "exec", l.ns[k], bin}, args...)...)
+	la := labArgs(append([]string{"ip", "netns", "exec", l.ns[k], bin}, args...))
+	cmd := exec.CommandContext(ctx, la[0], la[1:]...)
 	var so, se bytes.Buffer
 	cmd.Stdout, cmd.Stderr = &so, &se
 	err := cmd.Run()
@@ -233,7 +262,8 @@ func (l *lab) helper(params map[string]any) c13Out {
 	bin := filepath.Join(os.Getenv("VERIF_BUILD_DIR"), "trhelper")
 	ctx, cancel := context.WithTimeout(context.Background(), 120*time.Second)
 	defer cancel()
-	cmd := exec.CommandContext(ctx, "ip", "netns", "exec", l.ns[0], bin)
+	la := labArgs([]string{"ip", "netns", "exec", l.ns[0], bin})
+	cmd := exec.CommandContext(ctx, la[0], la[1:]...)
 	in, _ := json.Marshal(params)
 	cmd.Stdin = bytes.NewReader(in)
 	var so, se bytes.Buffer
@@ -350,6 +380,28 @@ func checkC13() fw.Check {
 							return o, p
 						}
 					}
+					// the counts asked for on the command line: -q runs, -Q end-to-end samples, each positive (the
+					// destination answers in every configuration that uses cliChain without a silent destination)
+					wantQ, wantE := -1, -1
+					for i := 0; i+1 < len(args); i++ {
+						if args[i] == "-q" {
+							fmt.Sscan(args[i+1], &wantQ)
+						}
+						if args[i] == "-Q" {
+							fmt.Sscan(args[i+1], &wantE)
+						}
+					}
+					if wantQ >= 0 && len(o.runs) != wantQ {
+						return o, fmt.Sprintf("%d runs in the output, -q %d", len(o.runs), wantQ)
+					}
+					if wantE >= 0 && len(o.rtts) != wantE {
+						return o, fmt.Sprintf("%d end-to-end samples in the output, -Q %d", len(o.rtts), wantE)
+					}
+					for _, r := range o.rtts {
+						if r <= 0 {
+							return o, fmt.Sprintf("end-to-end probe to a reachable destination reported %v", o.rtts)
+						}
+					}
 					return o, ""
 				}}
 			}
@@ -406,6 +458,28 @@ func checkC13() fw.Check {
 						return o, "expected one run"
 					}
 					return o, judgeRun(o.runs[0], []string{target}, 1, false)
+				}})
+			}
+			// a path longer than the requested maximum TTL: exactly -m entries, no destination among them
+			for _, pa := range [][]string{{"icmp", "-P", "icmp"}, {"udp", "-P", "udp"}, {"tcp-syn", "-P", "tcp", "-p", "8080", "--tcp-method", "syn"}, {"tcp-sack", "-P", "tcp", "-p", "8080", "--tcp-method", "sack"}, {"udp6", "-P", "udp", "--ipv6"}} {
+				pa := pa
+				if n0 < 2 {
+					break
+				}
+				cfgs = append(cfgs, c13Cfg{name: fmt.Sprintf("max-ttl-short-%s/N%d", pa[0], n0), n: n0, run: func(l *lab) (c13Out, string) {
+					v6 := pa[0] == "udp6"
+					m := l.n - 1
+					if m < 1 {
+						m = 1
+					}
+					o := l.cli(append(append([]string{}, pa[1:]...), "-q", "1", "-Q", "0", "-m", fmt.Sprint(m), "--timeout", "1000", l.dest(v6))...)
+					if o.err != "" {
+						return o, "CLI failed: " + o.err
+					}
+					if len(o.runs) != 1 {
+						return o, "expected one run"
+					}
+					return o, judgeRun(o.runs[0], l.expectChain(1, v6)[:m], 1, false)
 				}})
 			}
 			// one router silent
